@@ -36,6 +36,11 @@ def tasks(tier, seed):
         for op in ops:
             ts.append(dict(name=f'{op}_w{"".join(map(str, widths)) or "0"}_{fam}', op=op, widths=widths, fam=fam,
                            cut=4 if len(widths) >= 1 else None))
+    # every order of three-element edge-id lists (fan-shaped graphs: one upstream node with two parallel edges, one with a single edge)
+    for op in ('simplify', 'merge'):
+        ts.append(dict(name=f'{op}_w2_rich_eidorder', op=op, widths=(2,), fam='rich', permute=True, cut=5))
+        if not q:
+            ts.append(dict(name=f'{op}_w22_plain_eidorder', op=op, widths=(2, 2), fam='plain', permute=True, cut=6))
     # add: first graph from the family, second graph small; id schemes
     CONC = ('collide', 'shifted', 'swapped'); SYMB = ('fresh', 'nodes_collide_edges_fresh')
     afams = [((), 'par', (), CONC + SYMB), ((1,), 'plain', (1,), CONC + SYMB[1:] + ('nodes_fresh_edges_collide',)),
@@ -57,7 +62,7 @@ def required_marks(tier):
             'coeffs_differ_path', 'add_ids_renamed', 'charges_differ_block_merge']
 
 
-def gen_graph(eng, tag, widths, fam, nids=None, eids=None, qterm=None, symbolic_ids=False):
+def gen_graph(eng, tag, widths, fam, nids=None, eids=None, qterm=None, symbolic_ids=False, permute_eids=False):
     """layered graph; returns (graph, description)"""
     layers = [1] + list(widths) + [1]
     nn = sum(layers)
@@ -101,6 +106,15 @@ def gen_graph(eng, tag, widths, fam, nids=None, eids=None, qterm=None, symbolic_
         eids = list(range(ne))
     elif callable(eids):
         eids = eids(ne)
+    # the order of a node's edge-id lists is arbitrary input: nodes with exactly three edges on one side try every order
+    # (the rewrite rules scan pairs in list order, so an asymmetric rule only shows for particular orders)
+    if permute_eids:
+        import itertools as _it
+        for side in (ins, outs):
+            for i in range(nn):
+                if len(side[i]) == 3:
+                    perms = list(_it.permutations(side[i]))
+                    side[i] = list(perms[eng.choose(len(perms), f'{tag}perm{i}')])
     nodes = [OpGraphNode(nids[i], [eids[e] for e in ins[i]], [eids[e] for e in outs[i]], qn[i]) for i in range(nn)]
     elist = []
     for (e, a, b, oids) in edges:
@@ -158,7 +172,7 @@ def path(eng, acc, task, focus='C16'):
         # ids are symbolic somewhere in this task: every id is a Sym so that dict/set lookups decide by __eq__
         g, desc = gen_graph(eng, 'g', task['widths'], task['fam'], nids=symids(2 + sum(task['widths'])), eids=lambda ne: symids(ne))
     else:
-        g, desc = gen_graph(eng, 'g', task['widths'], task['fam'])
+        g, desc = gen_graph(eng, 'g', task['widths'], task['fam'], permute_eids=task.get('permute', False))
     fails = []
     if not g.is_consistent():
         raise runner.HarnessError('generated graph is not consistent')
